@@ -31,6 +31,8 @@ static int nthreads = 4, rounds = 2;
 static long mismatches[64], calls[64];
 static FILE *f_tr;
 static pthread_mutex_t mu = PTHREAD_MUTEX_INITIALIZER;
+static pthread_barrier_t bar;
+#define BLOCK 32
 
 static void
 one (const addr_t *a, int tld, int m, eav_t *ev, out_t *o)
@@ -55,7 +57,16 @@ worker (void *arg)
     eav_init (&ev);
     for (int r = 0; r < rounds; r++)
         for (int k = 0; k < naddr; k++) {
-            int i = (int) ((k + id * 7919 + r * 13) % naddr);      /* every thread walks in a different phase */
+            /* even rounds: all threads work on the same block of BLOCK addresses at the same time (barrier at the block boundary, each
+             * thread in its own order inside the block), so that two threads really are inside the library with the same string and the
+             * race detector still remembers the other thread's access; odd rounds: every thread walks in a different phase */
+            int i;
+            if (r % 2 == 0) {
+                int blk = k / BLOCK, off = k % BLOCK, len = (blk + 1) * BLOCK <= naddr ? BLOCK : naddr - blk * BLOCK;
+                if (off == 0) pthread_barrier_wait (&bar);
+                i = blk * BLOCK + (int) ((off + id * 5) % len);
+            } else
+                i = (int) ((k + id * 7919 + r * 13) % naddr);
             for (int tld = 0; tld < 2; tld++) for (int m = 0; m < 4; m++) {
                 out_t o, *b = &base[(i * 2 + tld) * 4 + m];
                 one (&addrs[i], tld, m, &ev, &o);
@@ -112,6 +123,7 @@ main (int argc, char **argv)
     for (int i = 0; i < naddr; i++) for (int tld = 0; tld < 2; tld++) for (int m = 0; m < 4; m++)
         one (&addrs[i], tld, m, &ev, &base[(i * 2 + tld) * 4 + m]);
     eav_free (&ev);
+    pthread_barrier_init (&bar, NULL, (unsigned) nthreads);
     for (long t = 0; t < nthreads; t++) pthread_create (&th[t], NULL, worker, (void *) t);
     for (long t = 0; t < nthreads; t++) pthread_join (th[t], NULL);
     for (int t = 0; t < nthreads; t++) { total += calls[t]; bad += mismatches[t]; }
